@@ -255,8 +255,18 @@ class _ReusablePoolExecutor(ProcessPoolExecutor):
                 time.sleep(1e-3)
 
             self._adjust_process_count()
+            # The manager thread only watches for the death of the workers
+            # that existed when it went back to waiting: make it look again.
+            with self._flags.shutdown_lock:
+                self._executor_manager_thread_wakeup.wakeup()
             processes = list(self._processes.values())
-            while not all(p.is_alive() for p in processes):
+            # A worker that died meanwhile never comes back to life: stop
+            # waiting as soon as the executor is flagged as broken (the next
+            # submit then reports the terminated worker).
+            while (
+                not all(p.is_alive() for p in processes)
+                and not self._flags.broken
+            ):
                 time.sleep(1e-3)
 
     def _wait_job_completion(self):
